@@ -276,7 +276,7 @@ def run(ctx):
             for blk in blank_blocks(j.res["trace"]):
                 for bv, bws in blk:
                     nvis += 1
-                    if bv["pv"] == "IGNORED":
+                    if bv["pv"] == "IGNORED" or bv["nx"] == "IGNORED":
                         if bws:
                             skipped_bad += 1
                         continue
@@ -320,7 +320,7 @@ def run(ctx):
         ctx.cov["inventory_entries_fired"] = dict(sorted(fired.items(), key=lambda kv: int(kv[0])))
         ctx.oblige("tie H6: %d visits of do_blank_lines() in %d runs explained by the regenerated inventory, final counts reproduced"
                    % (len(lines), visits), bad == 0 and len(ans) == len(lines) and len(lines) > 0, "corr", "%d unexplained" % bad)
-        ctx.oblige("tie H6: newline chunks after a CT_IGNORED chunk are skipped (no write)", skipped_bad == 0, "corr")
+        ctx.oblige("tie H6: newline chunks after or directly in front of a CT_IGNORED chunk are skipped (no write)", skipped_bad == 0, "corr")
 
         # ---- monitor at P1 + oracle on the real output
         mbad = obad = ebad = 0
@@ -373,11 +373,14 @@ def run(ctx):
             # oracle on the real op trace: terminators written for NEWLINE chunks, uninterrupted by other output
             if N > 0 and not over:
                 run_len, excl, worst = 0, False, 0
-                for f, ops in _oc(j.outs):
+                ocs = list(_oc(j.outs))
+                for q, (f, ops) in enumerate(ocs):
                     t = f["t"]
                     if t == "NEWLINE":
                         run_len += sum(1 for w in ops if w == "Aa")
-                        if not excl:
+                        # the blank lines in front of the first text of a disabled region are lines of the region
+                        lead_region = q + 1 < len(ocs) and ocs[q + 1][0]["t"] == "IGNORED"
+                        if not excl and not lead_region:
                             worst = max(worst, run_len)
                     elif t == "IGNORED":
                         excl, run_len = True, 0
